@@ -17,16 +17,36 @@
 (***************************************************************************)
 EXTENDS Naturals, Sequences, FiniteSets, TLC
 
-CONSTANTS Threads, MaxInst, Cpu       \* Cpu \in {"yes","no"}: what cpuid reports (fixed for the process)
+CONSTANTS
+    \* @type: Set(Int);
+    Threads,
+    \* @type: Int;
+    MaxInst,
+    \* @type: Str;
+    Cpu       \* Cpu \in {"yes","no"}: what cpuid reports (fixed for the process)
 UNINIT == "uninit"
 
-VARIABLES mo,      \* modification order of the cache: sequence of values, mo[1] = UNINIT
-          seen,    \* thread -> index into mo (coherence frontier)
-          pc,      \* thread -> "idle" | "loaded" | "detected"
-          tmp,     \* thread -> value loaded / detected
-          insts,   \* set of [id, arm, owner]: arm chosen at construction, owner thread currently holding it
-          nextId,
-          used     \* observations: [id, armAtUse]
+VARIABLES
+    \* modification order of the cache: sequence of values, mo[1] = UNINIT
+    \* @type: Seq(Str);
+    mo,
+    \* thread -> index into mo (coherence frontier)
+    \* @type: Int -> Int;
+    seen,
+    \* thread -> "idle" | "loaded" | "detected" | "built"
+    \* @type: Int -> Str;
+    pc,
+    \* thread -> value loaded / detected
+    \* @type: Int -> Str;
+    tmp,
+    \* set of [id, arm, owner]: arm chosen at construction, owner thread currently holding it
+    \* @type: Set({id: Int, arm: Str, owner: Int});
+    insts,
+    \* @type: Int;
+    nextId,
+    \* observations: what the constructor saw vs what the use read
+    \* @type: Set({id: Int, built: Str, read: Str});
+    used
 
 vars == <<mo, seen, pc, tmp, insts, nextId, used>>
 
